@@ -225,6 +225,11 @@ def mapIns : List Id → List Outcome → List Id
 /-- `append(other)` -/
 def appendSpec (room : Bool) (xs ys : List Id) : SpecOut Unit :=
   if room then { final := xs ++ ys, exit := .ret (), rest := [] }
-  else { final := xs, dropped := ys, exit := .panic false, rest := [] }
+  else { final := xs, exit := .panic false, rest := [] }
+
+/-- the owned slice that was passed to `append`, afterwards: emptied (`take_owned_slice`), or dropped
+    with all its elements when the reservation was refused -/
+def appendedOther (room : Bool) (other : Vec) (ys : List Id) : Vec :=
+  { slots := H other.cap, len := 0, dropLog := if room then other.dropLog else other.dropLog ++ ys, escaped := other.escaped }
 
 end Coll
